@@ -232,6 +232,45 @@ fn table_checks(r: &mut Rep) {
     if !t.is_empty() {
         r.viol("C08|PageTable::is_empty|false-for-zero-table", "table rezero", "");
     }
+    // zero() / is_empty() on sparse, clustered and striped populations: every pair of slots, every stride, runs at both ends
+    {
+        let vals = [0x8000_0000_1254_4003u64, 1, 0x1000, u64::MAX, 1 << 63];
+        let bp = |t: &PageTable| t as *const PageTable as *mut u64;
+        let all_zero = |t: &PageTable| (0..512).all(|k| unsafe { *bp(t).add(k) } == 0);
+        let mut populations: Vec<Vec<usize>> = Vec::new();
+        for i in 0..512usize {
+            for j in (i + 1)..512 {
+                // all pairs would be 130k tables x 512 writes: take every pair with a boundary/irregular member, and a coprime lattice of the rest
+                if i < 3 || j > 508 || j - i < 3 || i == 255 || j == 256 || (i * 7 + j * 13) % 31 == 0 {
+                    populations.push(vec![i, j]);
+                }
+            }
+        }
+        for stride in 2..=64usize {
+            populations.push((0..512).step_by(stride).collect());
+            populations.push((1..512).step_by(stride).collect());
+        }
+        for gap in 1..=20usize {
+            populations.push(vec![0, 1, 2, 3 + gap, 511]);
+            populations.push((0..512).filter(|k| *k != gap * 25 % 512).collect());
+        }
+        for (pi, pop) in populations.iter().enumerate() {
+            r.ev(true);
+            for (k, &slot) in pop.iter().enumerate() {
+                unsafe { *bp(&t).add(slot) = vals[(pi + k) % vals.len()] };
+            }
+            let was_empty = t.is_empty();
+            t.zero();
+            if was_empty || !all_zero(&t) || !t.is_empty() {
+                let left: Vec<usize> = (0..512).filter(|&k| unsafe { *bp(&t).add(k) } != 0).collect();
+                r.viol("C08|zero/is_empty|a-populated-table-reports-empty-or-zero()-leaves-entries", &format!("table population {:?}", &pop[..pop.len().min(8)]), &format!("{} slots populated, is_empty before {}, left after zero(): {:?}", pop.len(), was_empty, &left[..left.len().min(8)]));
+                // restore for the following cases
+                for k in 0..512 {
+                    unsafe { *bp(&t).add(k) = 0 };
+                }
+            }
+        }
+    }
     let d = PageTable::default();
     if !d.is_empty() || !PageTableEntry::new().is_unused() || raw(&PageTableEntry::default()) != 0 {
         r.viol("C08|default|not-empty", "default", "");
@@ -266,6 +305,7 @@ pub fn run(a: &Args) {
     if a.shard == 0 {
         let mut r = Rep::new("C08", "table");
         guarded(&mut r, "C08|PageTable|unexpected-panic", || "table".into(), |r| table_checks(r));
+        guarded(&mut r, "C08|const-context|unexpected-panic", || "constctx".into(), |r| crate::constctx::tables(r, "C08"));
         r.exhaustive = true;
         r.sample("table slot 511 path 2 (iter_mut) read back through [usize], [PageTableIndex], iter, raw LE bytes".into());
         r.emit();
